@@ -6,6 +6,7 @@ From Coq Require Import List NArith Bool.
 From FS Require Import Sx Model.Path Model.Stat Model.Validator Model.Hardlinks Model.Diff Model.AbsDest
   Model.Codec Model.MetaBuffer Model.Listing Model.Converge Model.ConvergeA Model.MetaOnly Model.MetaTransfer
   Proofs.ValidatorP Proofs.MetaOnlyP Proofs.MetaRewriteP Proofs.MetaAcceptP Proofs.MetaTransferP Proofs.MetaLinksP.
+From FS Require Import Model.Tree Model.Walk Proofs.WalkWfP Proofs.MetaWalkP.
 From FS Require Proofs.ConvergeP Proofs.ReceiveP.
 From FSGen Require FromSource.
 Import ListNotations.
@@ -208,6 +209,24 @@ Theorem wf_source_accepts_iff : forall sel B,
   (recv_accepts sel (map fst B) = true <-> link_closed sel (recv_stream (map fst B)) = true).
 Proof. exact wf_source_accepts_iff_proof. Qed.
 
+(* ... and for the listing fs.Walk produces for ANY well-formed tree (the walk model of C09,
+   hypotheses as in C01's converges_on_walked_trees) the side conditions hold by themselves: every
+   path is a clean relative path, the hard-link validator accepts the whole walk, and the receiver
+   accepts a selection iff it is link-closed - provided no entry depends on the reserved name *)
+Theorem walk_ok_paths : forall t, wf_tree t ->
+  forall s, In s (walk t) -> ok_path (st_path s) = true.
+Proof. exact walk_ok_paths_proof. Qed.
+
+Theorem walked_hardlink_check : forall t,
+  wf_tree t -> ino_consistent t -> inode_coherent t -> hardlink_check (walk t) = None.
+Proof. exact (walked_hardlink_check_proof (fun _ => [])). Qed.
+
+Theorem walked_source_accepts_iff : forall t,
+  wf_tree t -> ino_consistent t -> inode_coherent t -> forall sel,
+  listing_dependents (walk t) = false ->
+  (recv_accepts sel (walk t) = true <-> link_closed sel (recv_stream (walk t)) = true).
+Proof. exact (walked_source_accepts_iff_proof (fun _ => [])). Qed.
+
 (* ... (2) the bytes delivered under a registered id are those of that entry of the projection
    (ids are positions in the announced sequence: ids_aligned) ... *)
 Theorem registered_content : forall sel B p id,
@@ -311,6 +330,9 @@ Print Assumptions receiver_accepts_wf.
 Print Assumptions canon_hardlink_check.
 Print Assumptions canon_recv_hardlink_check.
 Print Assumptions wf_source_accepts_iff.
+Print Assumptions walk_ok_paths.
+Print Assumptions walked_hardlink_check.
+Print Assumptions walked_source_accepts_iff.
 Print Assumptions registered_content.
 Print Assumptions projection_wf.
 Print Assumptions meta_transfer_converges.
@@ -444,6 +466,18 @@ Proof.
   split; [apply ConvergeP.wf_entries_b_sound; vm_compute; reflexivity|].
   vm_compute. repeat split; reflexivity.
 Qed.
+
+(* a tree with a hard-link group (a/x, b) meets the hypotheses of walked_source_accepts_iff; both
+   sides of the equivalence occur *)
+Example ex_walked_source :
+  (wf_tree mw_tree /\ ino_consistent mw_tree /\ inode_coherent mw_tree) /\
+  map (fun s => (st_path s, st_linkname s)) (walk mw_tree) = [([97], []); ([97; 47; 120], []); ([98], [97; 47; 120])]%N
+  /\ listing_dependents (walk mw_tree) = false
+  /\ link_closed (fun _ => true) (recv_stream (walk mw_tree)) = true
+  /\ recv_accepts (fun _ => true) (walk mw_tree) = true
+  /\ (let only_b := fun s : stat => bytes_eqb (st_path s) [98%N] in
+      link_closed only_b (recv_stream (walk mw_tree)) = false /\ recv_accepts only_b (walk mw_tree) = false).
+Proof. split; [exact mw_tree_hyps|exact mw_tree_example]. Qed.
 
 (* projection = a, a/b, a/b/c, a/d, a/d/a, b; the stale listing and a/b/d are gone, a/c never
    appears; only a/b/c is requested, under id 3 (b is unchanged, a/d/a is a link), although the
